@@ -3,7 +3,8 @@
 (*   stype/sprov/alg      the key object that made the genuine signature (k1)      *)
 (*   vtype/vmat/vprov     the key object asked to verify                            *)
 (*   tcls/targ            tamper class the concrete bytes were rendered from        *)
-(*   data                 "d1" (the signed bytes) or "d2" (any other bytes)          *)
+(*   data                 "d1" (the signed bytes), "d2" (any other bytes), or the     *)
+(*                        coordinated "d1_rest" / "tail_d1" of the shift tampers      *)
 (*   obs                  "true" / "false" / the class name of the exception raised *)
 (* The step installs the observed answer as the design spec's `result` in a `done`  *)
 (* state and evaluates the design spec's own invariants on that state.              *)
@@ -19,7 +20,7 @@ RTamper   == [cls |-> R.tcls, arg |-> R.targ]
 IsCase == /\ RSigner \in Signers /\ RVerifier \in Keys
           /\ R.alg \in SignAlgs(R.stype)
           /\ RTamper \in Tampers(R.stype, R.alg)
-          /\ R.data \in {"d1", "d2"}
+          /\ R.data \in DataFor(RTamper)
 TInit == tid \in 1..Len(Batch) /\ l = 1 /\ bad = {} /\ Init
 TNext == /\ l = 1 /\ l' = 2 /\ tid' = tid
          /\ signer' = RSigner /\ verifier' = RVerifier /\ alg' = R.alg /\ tamper' = RTamper
